@@ -57,20 +57,29 @@ def file_pairs(ctx):
     pkg = {"signatures": {PUBHEX[2]: E.raw_sig(2, {"name": "x"})}, "signed": {"name": "x"}}
     other = {"signatures": {PUBHEX[4]: E.raw_sig(4, {"type": "pkg_mgr", "x": 1})}, "signed": {"type": "pkg_mgr", "x": 1}}
     r1_pkg = M.envelope(M.md("root", 1, {"root": M.delegation((0,), 1), "pkg_mgr": M.delegation((4,), 1)}), (0,))
+    # a non-root trusted file that delegates a role called "root"; a root-typed file signed (raw) by that key
+    km_rootdeleg = M.envelope(M.md("key_mgr", 1, {"root": M.delegation((2,), 1), "pkg_mgr": M.delegation((3,), 1)}), (4,), mode="raw")
+    root_raw_by2 = M.envelope(M.root_md(7, (2,), 1), (2,), mode="raw")
+    root_gpg_by2 = M.envelope(M.root_md(2, (2,), 1), (2,), mode="gpg")
+    # delegations whose threshold exceeds the number of listed keys (allowed by the format checks)
+    r1_unmeetable = M.envelope(M.md("root", 1, {"root": M.delegation((0,), 2), "key_mgr": M.delegation((4,), 2)}), (0,))
+    r2_unsigned = M.envelope(M.md("root", 2, {"root": M.delegation((0,), 2), "key_mgr": M.delegation((4,), 2)}), ())
     j = lambda v: json.dumps(v).encode()
     docs = {"r1": j(r1), "r2": j(r2), "r2_one": j(r2_one), "r3": j(r3), "r2_raw": j(r2_raw), "r2_self": j(r2_self), "km": j(km), "km_gpg": j(km_gpg),
             "km_unsigned": j(km_unsigned), "km_wrongkey": j(km_wrongkey), "root_as_km": j(root_as_km), "pkg": j(pkg), "other": j(other), "r1_pkg": j(r1_pkg),
+            "km_rootdeleg": j(km_rootdeleg), "root_raw_by2": j(root_raw_by2), "root_gpg_by2": j(root_gpg_by2), "r1_unmeetable": j(r1_unmeetable), "r2_unsigned": j(r2_unsigned),
             "empty": b"", "garbage": bytes(range(256)), "list": b"[1, 2]", "string": b'"root"', "nosigned": j({"signatures": {}}),
             "signed_list": j({"signatures": {}, "signed": [1]}), "type_int": j({"signatures": {}, "signed": {"type": 5}}),
             "type_null": j({"signatures": {}, "signed": {"type": None}}), "notype": j({"signatures": {}, "signed": {"x": 1}}),
             "truncated": j(r2)[:-20], "nan": b'{"signatures": {}, "signed": {"type": "root", "version": NaN}}', "utf16": json.dumps(r2).encode("utf-16"),
             "missing": None, "r2_bom": b"\xef\xbb\xbf" + j(r2), "nonascii_type": j({"signatures": {}, "signed": {"type": "röle\ud800"}})}
     pairs = [("r1", "r2"), ("r1", "r2_one"), ("r1", "r3"), ("r2", "r3"), ("r1", "r1"), ("r2", "r1"), ("r1", "r2_raw"), ("r1", "r2_self"), ("r1", "km"), ("r1", "km_gpg"),
+             ("km_rootdeleg", "root_raw_by2"), ("km_rootdeleg", "root_gpg_by2"), ("r1_unmeetable", "km_wrongkey"), ("r1_unmeetable", "r2_unsigned"), ("r1_unmeetable", "km"),
              ("r1", "km_unsigned"), ("r1", "km_wrongkey"), ("r1", "root_as_km"), ("km", "pkg"), ("r1", "other"), ("r1_pkg", "other"), ("km", "r2"), ("r2", "km")]
     bad = ["empty", "garbage", "list", "string", "nosigned", "signed_list", "type_int", "type_null", "notype", "truncated", "nan", "utf16", "missing", "r2_bom", "nonascii_type"]
     pairs += [("r1", b) for b in bad] + [(b, "r2") for b in bad] + [(b, "km") for b in bad[:6]] + [("missing", "missing"), ("garbage", "garbage")]
     if ctx.quick:
-        pairs = pairs[:18] + rng.sample(pairs[18:], 14)
+        pairs = pairs[:23] + rng.sample(pairs[23:], 14)
     return docs, pairs
 
 
